@@ -25,6 +25,10 @@ def op_instrs(c):
         return errobs(e)
     out = [0, len(ins)]
     for x in ins:
+        if x.opname != opc.opname[x.opcode]:
+            # the instruction's name is the table's name of its opcode number (the table's names are C09's obligation); anything else
+            # is reported as an observation no model produces
+            return [1, 77, x.offset, x.opcode]
         out += [x.offset, x.opcode] + opt(x.arg) + [x.inst_size, 1 if x.has_extended_arg else 0, 1 if x.is_jump_target else 0]
         out += opt(x.argval if x.optype in ("jrel", "jabs") and x.arg is not None else None)
     return out
